@@ -230,9 +230,24 @@ def drive(rep: Report, seed: int, tier: str, deadline: float):
             return
 
 
-CRASH_CODE = ("import sys; sys.path.insert(0, %r); import torch\n"
-              "from torcheval.metrics.functional.frechet import gaussian_frechet_distance as g\n"
-              "c = torch.full((2, 2), float('nan')); print(g(torch.zeros(2), c, torch.zeros(2), c))\n")
+CRASH_PRELUDE = ("import sys; sys.path.insert(0, %r); import torch\n"
+                 "from torcheval.metrics.functional.frechet import gaussian_frechet_distance as g\n")
+# covariance faults for the one native kernel that dies instead of raising on this tree (torch.linalg.eigvals on a non-finite
+# matrix): every way a non-finite matrix can reach it — non-finite inputs (everywhere / only off the diagonal / only on it) and
+# FINITE inputs whose product overflows the working precision.  name -> (signature class, code building c and calling g)
+CRASH_CASES = [
+    ("nan-everywhere", "non-finite-covariance", "c = torch.full((2, 2), float('nan')); print(g(torch.zeros(2), c, torch.zeros(2), c))\n"),
+    ("nan-off-diagonal", "non-finite-covariance", "c = torch.eye(3); c[0, 1] = c[1, 0] = float('nan'); print(g(torch.zeros(3), c, torch.zeros(3), torch.eye(3)))\n"),
+    ("nan-off-diagonal-second", "non-finite-covariance", "c = torch.eye(3, dtype=torch.float64); c[0, 2] = c[2, 0] = float('nan'); print(g(torch.zeros(3, dtype=torch.float64), torch.eye(3, dtype=torch.float64), torch.zeros(3, dtype=torch.float64), c))\n"),
+    ("inf-on-diagonal", "non-finite-covariance", "c = torch.eye(2); c[1, 1] = float('inf'); print(g(torch.zeros(2), c, torch.zeros(2), c))\n"),
+    ("minus-inf-off-diagonal", "non-finite-covariance", "c = torch.eye(2); c[0, 1] = c[1, 0] = -float('inf'); print(g(torch.zeros(2), c, torch.zeros(2), torch.eye(2)))\n"),
+    ("huge-finite-float32", "overflowing-covariance-product", "c = 3e38 * torch.eye(3); c[0, 1] = c[1, 0] = 1e38; print(g(torch.zeros(3), c, torch.zeros(3), c))\n"),
+    ("huge-finite-float64", "overflowing-covariance-product", "c = 1e200 * torch.eye(3, dtype=torch.float64); c[0, 1] = c[1, 0] = 1e199; z = torch.zeros(3, dtype=torch.float64); print(g(z, c, z, c))\n"),
+    ("huge-times-small", "overflowing-covariance-product", "c = 3e38 * torch.eye(2); d = torch.full((2, 2), 4.0); print(g(torch.zeros(2), c, torch.zeros(2), d))\n"),
+    ("huge-means", "overflowing-means", "c = torch.eye(2); print(g(torch.full((2,), 3e38), c, torch.full((2,), -3e38), c))\n"),
+    ("empty", "zero-sized", "print(g(torch.zeros(0), torch.zeros(0, 0), torch.zeros(0), torch.zeros(0, 0)))\n"),
+]
+CRASH_CODE = CRASH_PRELUDE + CRASH_CASES[0][2]      # (kept for replay files written by earlier versions)
 
 
 def run_code(code: str):
@@ -244,14 +259,18 @@ def run_code(code: str):
 
 
 def crash_probe(rep: Report):
-    """the one native crash known on this tree: torch.linalg.eigvals on a non-finite matrix."""
-    code = CRASH_CODE % str(REPO)
-    rc = run_code(code)
-    rep.case(nontrivial_key=("crash-probe", "gaussian_frechet_distance"))
-    if rc not in (0, 1):
-        rep.violation("C14|gaussian_frechet_distance|non-finite-covariance|interpreter-crash",
-                      f"gaussian_frechet_distance with a NaN covariance (also FrechetAudioDistance.compute() with < 2 embeddings) kills the interpreter: exit status {rc}",
-                      {"kind": "code", "code": code, "exit_status": rc})
+    """native crashes of torch.linalg.eigvals (non-finite matrix): each case runs in a child process; any exit status other than
+    0 (returned) or 1 (Python exception) is an interpreter crash."""
+    for name, sigclass, body in CRASH_CASES:
+        code = (CRASH_PRELUDE % str(REPO)) + body
+        rc = run_code(code)
+        rep.case(nontrivial_key=("crash-probe", "gaussian_frechet_distance", name))
+        rep.count(f"crash-probe:{name}:exit={rc}")
+        if rc not in (0, 1):
+            rep.violation(f"C14|gaussian_frechet_distance|{sigclass}|interpreter-crash",
+                          f"gaussian_frechet_distance, covariance fault {name}: the interpreter dies instead of raising (exit status {rc})"
+                          + (" (also FrechetAudioDistance.compute() with < 2 embeddings)" if name == "nan-everywhere" else ""),
+                          {"kind": "code", "code": code, "exit_status": rc})
 
 
 # the unguarded index sites of TE/Props/C14.lean (`unguardedSites`), each with a minimal concrete input:
